@@ -1,6 +1,8 @@
 //! vcommon: reference models, generators and check implementations for the rtcm-rs properties C01..C20.
+pub mod biasmsg;
 pub mod bits;
 pub mod crc;
+pub mod fields;
 pub mod frame;
 pub mod infra;
 pub mod pool;
